@@ -10,7 +10,26 @@ const DROP: &[&str] = &[
     "not_before", "user_agent", "now", "t0", "per_ca", "quiescent", "n_accepted", "next_class_name", "old_repo", "ta_signer", "ta_proxy", "marker",
 ];
 
+fn is_num(s: &str) -> bool {
+    !s.is_empty() && s.bytes().all(|b| b.is_ascii_digit())
+}
+
+/// Resource class names are fresh values too: `…/repo/<ca>/<n>/…` → `…/repo/<ca>/N/…`.
+fn erase_class_names(s: &str) -> String {
+    let mut out = Vec::new();
+    let segs: Vec<&str> = s.split('/').collect();
+    for (i, seg) in segs.iter().enumerate() {
+        if is_num(seg) && i >= 2 && segs[..i].iter().any(|x| *x == "repo") && i + 1 < segs.len() {
+            out.push("N".to_string());
+        } else {
+            out.push(seg.to_string());
+        }
+    }
+    out.join("/")
+}
+
 pub fn erase_tokens(s: &str) -> String {
+    let s = &erase_class_names(s);
     // K12 / S3 / H44 -> K / S / H
     let b = s.as_bytes();
     let mut out = String::new();
@@ -50,7 +69,7 @@ pub fn semantic(v: &Value) -> Value {
                 if DROP.contains(&k.as_str()) { continue; }
                 // keys a parent has revoked are history, not state ("up to fresh keys")
                 if x.as_str() == Some("revoked") { continue; }
-                let nk = erase_tokens(k);
+                let nk = if is_num(k) { "N".to_string() } else { erase_tokens(k) };
                 let nv = semantic(x);
                 // two keys may collapse onto one: keep both in a list
                 match out.remove(&nk) {
@@ -78,6 +97,8 @@ pub fn semantic(v: &Value) -> Value {
             l.sort_by_key(|v| v.to_string());
             Value::Array(l)
         }
+        // purely numeric strings are resource class names (fresh values as well)
+        Value::String(s) if is_num(s) => Value::String("N".into()),
         Value::String(s) => Value::String(erase_tokens(s)),
         other => other.clone(),
     }
